@@ -189,11 +189,12 @@ def parse_simulate_file(path):
         text = fh.read()
     out = []
     # pieces: '\* <Action line ...>\nSTATE_n == \n/\ ...\n\n'
-    for m in re.finditer(r'(?:\\\* <([^>]*)>\s*\n)?STATE_(\d+) ==\s*\n(.*?)(?=\n\s*\n|\Z)', text, re.S):
+    for m in re.finditer(r'(?:\\\* <(.*?) line \d+, col \d+ to line \d+, col \d+ of module \w+>\s*\n)?'
+                         r'STATE_(\d+) ==\s*\n(.*?)(?=\n\s*\n|\Z)', text, re.S):
         label, num, body = m.group(1), m.group(2), m.group(3)
         act = args = None
         if label:
-            mm = re.match(r'(\w+)(?:\((.*)\))?\s+line', label)
+            mm = re.match(r'(\w+)(?:\((.*)\))?\s*$', label, re.S)
             if mm:
                 act, args = mm.group(1), mm.group(2)
         out.append((act, args, parse_state_body(body)))
